@@ -111,6 +111,20 @@ def run_case(case):
             if f is None or f.__code__.co_firstlineno not in (deco_line, def_line) or not f.__code__.co_filename.endswith("rules.py"):
                 if names.count(n) == 1:
                     v.append(viol({"kind": "registry_points_elsewhere", "rule": n}, "registry entry {} does not wrap the definition at line {}".format(n, def_line)))
+        # module namespace vs registry (covers rules created by assignment, e.g. X = rule(...)(f)): every rule wrapper bound in the
+        # rule module must be the registry entry of its own name, and every registry key must be bound in the module
+        from ctparse.time import rules as R
+
+        reg_by_id = {id(w): n for n, (w, _) in RU.rules.items()}
+        for attr, obj in vars(R).items():
+            if callable(obj) and getattr(obj, "__qualname__", "").endswith("fwrapper.<locals>.wrapper"):
+                if id(obj) not in reg_by_id:
+                    v.append(viol({"kind": "rule_defined_but_not_registered", "rule": attr}, "rule object {} of the rule module is not in the registry (another definition took its name: it can never fire)".format(attr)))
+                elif reg_by_id[id(obj)] != attr and attr not in RU.rules:
+                    v.append(viol({"kind": "rule_registered_under_other_name", "rule": attr}, "rule {} is registered under the name {!r}".format(attr, reg_by_id[id(obj)])))
+        for n in RU.rules:
+            if not hasattr(R, n) and n not in names:
+                v.append(viol({"kind": "registry_name_is_no_rule", "rule": n}, "registry entry {!r} names no rule of the rule module".format(n)))
         extra = [n for n in RU.rules if n not in names]
         st["rules_defined"] = len(defs)
         st["rules_registered_elsewhere"] = len(extra)
